@@ -276,10 +276,44 @@ class _NeedSplit(Exception):
         self.cond = cond
 
 
+class _Budget(BaseException):
+    pass
+
+
+def _with_alarm(seconds, fn, *args):
+    """run ``fn`` under a wall-clock limit (SIGALRM; workers are single-threaded processes).  Exact simplification has no
+    useful complexity bound: a normaliser that does not finish in time simply does not decide the claim."""
+    import signal
+
+    if not hasattr(signal, "SIGALRM"):
+        return fn(*args)
+
+    def _raise(signum, frame):
+        raise _Budget()
+
+    try:
+        old = signal.signal(signal.SIGALRM, _raise)
+    except ValueError:  # not in the main thread
+        return fn(*args)
+    signal.alarm(max(1, int(seconds)))
+    try:
+        return fn(*args)
+    finally:
+        signal.alarm(0)
+        signal.signal(signal.SIGALRM, old)
+
+
 def _zero_test(sp, e):
     """exact: True iff the normal form of ``e`` is 0"""
     if e == 0:
         return True
+    try:
+        return _with_alarm(45, _zero_test_unlimited, sp, e)
+    except _Budget:
+        return False
+
+
+def _zero_test_unlimited(sp, e):
     for f in (lambda x: sp.expand(sp.fraction(sp.together(x))[0]), lambda x: sp.expand(x), lambda x: sp.expand(sp.expand_log(x)), lambda x: sp.expand(sp.expand_log(sp.together(x), force=False)), lambda x: sp.simplify(x), lambda x: sp.simplify(sp.expand(sp.together(x))), lambda x: sp.simplify(x.rewrite(sp.erf))):
         try:
             r = f(e)
@@ -352,7 +386,7 @@ def _decide_atom(pc, atom, budget_s, seed):
                 c = tr.tr(ch[2])
                 if not isinstance(x, sp.Symbol):
                     return "unknown", None, "differentiation variable is not an input constant"
-                lhs = sp.diff(v, x)
+                lhs = _with_alarm(45, sp.diff, v, x)
                 rhs = c
             else:
                 lhs = tr.tr(ch[0])
@@ -375,6 +409,8 @@ def _decide_atom(pc, atom, budget_s, seed):
             continue
         except NotAnalytic as e:
             return "unknown", None, "outside the analytic fragment: %s" % e
+        except _Budget:
+            return "unknown", None, "symbolic differentiation did not finish within its budget"
         diff = lhs - rhs
         if _zero_test(sp, diff):
             info.append("normal form 0")
@@ -387,9 +423,9 @@ def _decide_atom(pc, atom, budget_s, seed):
             if pt is None:
                 continue
             try:
-                dv = _eval(sp, diff, tr, pt)
-                lv = _eval(sp, lhs, tr, pt)
-                rv = _eval(sp, rhs, tr, pt)
+                dv, lv, rv = _with_alarm(20, lambda: (_eval(sp, diff, tr, pt), _eval(sp, lhs, tr, pt), _eval(sp, rhs, tr, pt)))
+            except _Budget:
+                continue
             except Exception:
                 continue
             if not (dv.is_number and dv.is_real):
